@@ -716,6 +716,8 @@ class CompoundInterval(Location):
 
     def gap_list(self) -> List[SingleInterval]:
         optimized = self.optimize_and_combine_blocks()
+        if optimized.is_empty:
+            return []
         block_iter = optimized.scan_blocks()
         gaps = []
         block1 = next(block_iter)
